@@ -18,8 +18,8 @@
 //@harness name=probe_three_keys_aab_le kind=bounded bound="trie of 3 keys x 2 bytes, shape (a,a,b); probe of 2 symbolic bytes" tier=thorough timeout=3600 gate=yes
 //@harness name=probe_three_keys_abb_ge kind=bounded bound="trie of 3 keys x 2 bytes, shape (a,b,b); probe of 2 symbolic bytes" tier=thorough timeout=3600 gate=yes
 //@harness name=probe_three_keys_abb_le kind=bounded bound="trie of 3 keys x 2 bytes, shape (a,b,b); probe of 2 symbolic bytes" tier=thorough timeout=3600 gate=yes
-//@harness name=probe_two_keys_three_bytes_ge kind=bounded bound="trie of 2 keys x 3 bytes with distinct symbolic first bytes (a single-child node below each branch), first key fully symbolic, lower bytes of the second key fixed; probe of 3 symbolic bytes" tier=quick timeout=1800
-//@harness name=probe_two_keys_three_bytes_le kind=bounded bound="trie of 2 keys x 3 bytes with distinct symbolic first bytes (a single-child node below each branch), second key fully symbolic, lower bytes of the first key fixed; probe of 3 symbolic bytes" tier=quick timeout=1800
+//@harness name=probe_two_keys_three_bytes_ge kind=bounded bound="trie of 2 keys x 3 bytes with distinct symbolic first bytes (a single-child node below each branch), first key fully symbolic, lower bytes of the second key fixed; probe of 3 symbolic bytes" tier=thorough timeout=3600 gate=yes
+//@harness name=probe_two_keys_three_bytes_le kind=bounded bound="trie of 2 keys x 3 bytes with distinct symbolic first bytes (a single-child node below each branch), second key fully symbolic, lower bytes of the first key fixed; probe of 3 symbolic bytes" tier=thorough timeout=3600 gate=yes
 //@obligation C08.surf_probe.ge_sound : whenever some key of the zone is >= (inclusive) or > (exclusive) the lower bound, may_overlap_ge reports the zone [bounded shapes]
 //@obligation C08.surf_probe.le_sound : whenever some key of the zone is <= (inclusive) or < (exclusive) the upper bound, may_overlap_le reports the zone [bounded shapes]
 
